@@ -27,6 +27,7 @@ import (
 	"strconv"
 	"strings"
 	"sync"
+	"sync/atomic"
 	"time"
 
 	"github.com/krotik/ecal/engine"
@@ -339,6 +340,7 @@ func c11Run(payload string) string {
 	}
 
 	var lost, dup, misattr, echo int
+	var progress int64
 	var cmu sync.Mutex
 	var wg sync.WaitGroup
 	start := make(chan struct{})
@@ -408,6 +410,7 @@ func c11Run(payload string) string {
 				cmu.Lock()
 				lost, dup, misattr = lost+l, dup+d, misattr+ma
 				cmu.Unlock()
+				atomic.AddInt64(&progress, 1)
 			}
 			var mine []c11Event
 			for i := t; i < len(events); i += h {
@@ -455,7 +458,23 @@ func c11Run(payload string) string {
 		}(t)
 	}
 	close(start)
-	wg.Wait()
+	// watchdog: a slow machine is not a hang — only 30 s without a single finished event is
+	done := make(chan struct{})
+	go func() { wg.Wait(); close(done) }()
+	last, lastAt := int64(-1), time.Now()
+	for waiting := true; waiting; {
+		select {
+		case <-done:
+			waiting = false
+			continue
+		case <-time.After(2 * time.Second):
+		}
+		if p := atomic.LoadInt64(&progress); p != last {
+			last, lastAt = p, time.Now()
+		} else if time.Since(lastAt) > 30*time.Second {
+			return "HANG " + c13StuckFrames()
+		}
+	}
 
 	// echoes: every expected (sink, id) exactly once, all three routes agree
 	want := map[string]int{}
@@ -498,7 +517,7 @@ func c11Run(payload string) string {
 
 func init() {
 	register("C11", &Prop{
-		Timeout: 120 * time.Second,
+		Timeout: 300 * time.Second,
 		Setup: func() {
 			registerX("fail", func(args []interface{}) (interface{}, error) {
 				return nil, fmt.Errorf("E_%v_%v;", args[0], args[1])
